@@ -130,6 +130,12 @@ impl AggregatedMetric {
                         "local drain metric {} underflow: previous value: {}, adding: {}",
                         key, before, v2
                     );
+                    #[cfg(sozu_verif)]
+                    crate::verif::emit_s(
+                        "gauge_underflow",
+                        &[("previous", before as i64), ("adding", v2)],
+                        &[("key", key.to_owned())],
+                    );
                     0
                 };
                 debug_assert!(
